@@ -73,7 +73,7 @@ CHECKS = {
   'text': 'Decides the structural half of lossless save/load: for all to_json/from_json pairs and the Extract*/Load* helpers every key looked up by a reader is produced by its writer under the same path, every persistent key written is read back '
           '(derived keys listed with reasons), the member written under a key is the member it is loaded into, every serialised enum table is a bijection covering all enumerators, the model is loaded core -> finalise -> data against the loaded typification, '
           'and keyed containers are written with their keys.',
-  'note': 'Value-level equality of a reloaded object and stability of the re-serialised document are not decided. Model values are packed by SDCompact (decided under C16). Known finding: TextInterpretation is written without its interpretant ids (recorded in known_findings.json).',
+  'note': 'Value-level equality of a reloaded object and stability of the re-serialised document are not decided. Model values are packed by SDCompact (decided under C16). The finding that TextInterpretation was written without its interpretant ids is repaired (known_findings.json, status fixed).',
  },
  'C16': {
   'technique': 'sibling (writer/reader) agreement rules over the typed AST: dispatch tables, argument identity, per-case cell partition of the visitors, loop ranges; who-may-call + guard dominance for the unchecked reads',
@@ -256,4 +256,4 @@ for _k, (_tech, _text, _note) in _AS_BUILT.items():
     CHECKS[_k]['text'] += _text
     CHECKS[_k]['note'] = _note
 NOTES += (' Round 3: whole components are interpreted from their source on bounded families (StructuredData, CGraph, Normalizer with SyntaxTree editing, MergeWith, lexer token data, reference scanning); '
-          'shape recognisers defer to them instead of alarming on an unrecognised form. 48 fix: commits in /repo repair genuine defects decided by the checks (known_findings.json, status fixed); 4 remain listed as known; the audit findings no check decides are listed in DESIGN.md 9.7 and not claimed.')
+          'shape recognisers defer to them instead of alarming on an unrecognised form. 91 fix: commits in /repo repair genuine defects decided by the checks (known_findings.json, 132 entries with status fixed); 3 remain listed as known (C02 r6); the audit findings no check decides are listed in DESIGN.md 9.7 and not claimed.')
